@@ -136,10 +136,7 @@ def run(rep):
     else:
         s = show(cf.body)
         key_id = cf.thir["params"][1]["pat"]["id"]
-        nth = [n for n in walk(cf.body) if call_is(n, "Iterator::nth")]
-        ok = len(nth) == 1 and facts.lit(nth[0]["args"][1]) == ("i", 0) and call_is(peel(nth[0]["args"][0]), "::chars") and q.var_id(peel(nth[0]["args"][0])["args"][0]) == key_id
-        casts = [n for n in walk(cf.body) if n.get("k") == "Cast"]
-        ok = ok and {(c["from"], c["ty"]) for c in casts} <= {("char", "u32"), ("u32", "usize")} and len(casts) == 2
+        ok, _ = q.cache_decode(cf)
         rep.check(ok, "PROV-CACHE", "PROV-CACHE/decode", cf.sp, "Cache::find decodes key.chars().nth(0) as the slot index", s[:140])
         s2 = show(pf.body)
         rep.check(s2 == "Clone::clone(self.0)", "PROV-CACHE", "PROV-CACHE/passthrough-find", pf.sp, "Passthrough::find returns its stored value whatever the key", s2)
